@@ -16,11 +16,13 @@
 //!     and updates again. The cuts extend over the rsync part of the write (`--rsynccut 0` leaves
 //!     that part out); before commit e1f99c61 the cut between the second rename and the removal
 //!     of rsync/old left every later write failing (finding F11c, fixed).
-//! (c) Switches for findings (off by default, see lib/props.d/C11.py): `--f11a 1` applies the
-//!     property's unconditional "never more than max_nr deltas" to every update; `--f11b 1` runs a
-//!     worker with `rrdp_delta_files_max_nr = 0`; `--candidates 1` replays three scripted
-//!     scenarios (URIs differing in module-name case, a stale rsync/tmp-<serial> reused after a
-//!     session reset, an object URI that is a directory prefix of another).
+//! (c) On by default (see lib/props.d/C11.py): `--f11a 1` applies the property's unconditional
+//!     "never more than max_nr deltas" to every update (an exceedance is tagged with whether the
+//!     configured minimums explain it: the rest of finding F11a); `--f11b 1` runs a worker with
+//!     `rrdp_delta_files_max_nr = 0` (no panic since 5d8ba60d); `--candidates 1` replays three
+//!     scripted scenarios: URIs differing in module-name case (finding F11e), an object URI that
+//!     is a directory prefix of another (finding F11h), and - as a regression check - a stale
+//!     rsync/tmp-<serial> after a session reset (F11f, fixed by e2447e97).
 //!
 //! Abstraction (trusted): as in c10.rs for URIs / handles / contents; session ids, random path
 //! components and unknown names are interned; a hash is named by the parsed content of the file
@@ -709,7 +711,7 @@ fn grid(rng: &mut Rng, thorough: bool, f11b: bool) -> Vec<RetCfg> {
         all.push(RetCfg { min_nr, min_secs, max_nr, max_secs, archive: false });
     } } } }
     let _ = f11b;
-    if thorough { return all }
+    if thorough { all.push(RetCfg { min_nr: 0, min_secs: 0, max_nr: 0, max_secs: HUGE, archive: false }); all.push(RetCfg { min_nr: 1, min_secs: 1, max_nr: 0, max_secs: HUGE, archive: false }); return all }
     // quick: a seeded sample that still covers every value of every dimension and the default configuration
     for i in (1..all.len()).rev() { let j = rng.below(i as u64 + 1) as usize; all.swap(i, j) }
     let mut pick: Vec<RetCfg> = all.into_iter().take(14).collect();
@@ -717,6 +719,7 @@ fn grid(rng: &mut Rng, thorough: bool, f11b: bool) -> Vec<RetCfg> {
     pick.push(RetCfg { min_nr: 0, min_secs: HUGE, max_nr: 2, max_secs: HUGE, archive: false });
     pick.push(RetCfg { min_nr: 5, min_secs: 0, max_nr: 2, max_secs: 0, archive: false });
     pick.push(RetCfg { min_nr: 0, min_secs: 0, max_nr: 2, max_secs: HUGE, archive: true });
+    pick.push(RetCfg { min_nr: 0, min_secs: 0, max_nr: 0, max_secs: HUGE, archive: false });
     pick
 }
 
@@ -787,14 +790,20 @@ fn run_history(out: &mut Out, it: &mut Interner, srv: &mut Server, rec: &Recorde
                 let rnd = if op == "update" { post.deltas.first().map(|d| d.rnd).unwrap_or(0) } else { post.snaprnd };
                 let orc = format!("(mkOracle {} {} {} {})", coq_z(now), rnd, post.session, rc.coq());
                 let post_t = if panicked { "None".to_string() } else { format!("(Some {})", coq_rrdp(&post, it)) };
-                let over = post.deltas.len() as u64 > rc.max_nr;
-                let cause = if !over { "" } else if rc.min_nr >= rc.max_nr { "min_nr>=max_nr" } else if rc.min_secs > 0 { "younger_than_min_seconds" } else { "other" };
+                // more deltas than the configured maximum (the new delta itself is always retained) ...
+                let limit = rc.max_nr.max(1) as usize;
+                let over = op == "update" && post.serial == pre.serial + 1 && post.deltas.len() > limit;
+                // ... and whether every old delta retained beyond it is protected by min_nr / min_seconds (the documented
+                // priority of the configured minimums: what remains of finding F11a after 5d8ba60d)
+                let protected = |i: usize, d: &MDelta| (i as u64) < rc.min_nr || (rc.min_secs > 0 && d.time > now - (rc.min_secs as i64).saturating_mul(1_000_000));
+                let explained = over && (limit - 1..post.deltas.len() - 1).all(|i| pre.deltas.get(i).map(|d| protected(i, d)).unwrap_or(false));
+                let cause = if !over { "" } else if !explained { "not_protected" } else if rc.min_nr >= rc.max_nr { "min_nr>=max_nr" } else { "younger_than_min_seconds" };
                 let term = format!("(KTrans {} {} {} {} {} {})", coq_sizes(it, &pre, &post), coq_rrdp(&pre, it), if op == "update" { "OUpdate" } else { "OReset" }, orc, post_t, strict);
                 let recj = json!({"history": hist, "config": rc.json(), "request": op, "result": if ok { "ok".to_string() } else { err.clone() },
                     "serial_before": pre.serial, "serial_after": post.serial, "session_changed": pre.session != post.session, "staged_before": staged_nonempty,
                     "deltas_before": pre.deltas.iter().map(|d| d.serial).collect::<Vec<_>>(), "deltas_after": post.deltas.iter().map(|d| d.serial).collect::<Vec<_>>(),
                     "delta_ages_ms_before": pre.deltas.iter().map(|d| (now - d.time) / 1000).collect::<Vec<_>>(),
-                    "class": {"retained_over_max_nr": over && strict, "cause": cause, "max_nr_zero": rc.max_nr == 0, "panicked": panicked}});
+                    "class": {"retained_over_max_nr": over && strict, "protected_by_configured_minimum": explained, "cause": cause, "max_nr_zero_panic": panicked && rc.max_nr == 0, "panicked": panicked}});
                 out.push(term, recj, "trans", op == "reset" || staged_nonempty);
                 if over { out.bump("transitions_retaining_more_than_max_nr"); }
                 if !ok && !panicked { out.impl_failures.push(json!({"index": Value::Null, "class": {"kind": "write_failed", "op": op, "f11c": old_nonempty(&pre_raw)}, "what": err.clone()})); }
@@ -1100,7 +1109,7 @@ fn run(args: &Args) -> i32 {
     let tokio = tokio::runtime::Runtime::new().expect("tokio");
     let mut rng = Rng::new(args.seed);
     let thorough = args.thorough();
-    let strict = args.get_u64("f11a", 0) == 1;
+    let strict = args.get_u64("f11a", 1) == 1;
     let steps = args.get_u64("steps", if thorough { 22 } else { 11 });
     let rounds = args.get_u64("rounds", if thorough { 6 } else { 1 });
     let footer: String = EVALS.iter().map(|e| format!("Eval vm_compute in (failing {e} base_index cases).")).collect::<Vec<_>>().join("\n");
@@ -1137,7 +1146,7 @@ fn run(args: &Args) -> i32 {
     set_probe(None);
     if args.get_u64("cuts", 1) == 1 { cut_scenario(&mut out, &mut it, args, &mut rng); }
     let mut f11b = Value::Null;
-    if args.get_u64("f11b", 0) == 1 {
+    if args.get_u64("f11b", 1) == 1 {
         let d = args.out.join("f11b");
         let _ = std::fs::remove_dir_all(&d);
         std::fs::create_dir_all(&d).unwrap();
@@ -1145,12 +1154,12 @@ fn run(args: &Args) -> i32 {
         f11b = read_json(&d.join("f11b.json"));
         if f11b.is_null() { f11b = json!({"worker_exit": format!("{rc:?}"), "stderr": err}); }
         let panicked = f11b["log"].as_array().map(|a| a.iter().any(|x| x["result"].as_str().unwrap_or("").starts_with("panic"))).unwrap_or(false) || rc.is_none();
-        if panicked { out.impl_failures.push(json!({"index": Value::Null, "class": {"kind": "panic", "max_nr_zero": true}, "what": "rrdp_delta_files_max_nr = 0: find_deltas_truncate_age panics (attempt to subtract with overflow) in a build with overflow checks", "log": f11b.clone()})); }
+        if panicked { out.impl_failures.push(json!({"index": Value::Null, "class": {"kind": "panic", "max_nr_zero_panic": true}, "what": "rrdp_delta_files_max_nr = 0: find_deltas_truncate_age panics (attempt to subtract with overflow) in a build with overflow checks (finding F11b, fixed by 5d8ba60d)", "log": f11b.clone()})); }
     }
-    let candidates = if args.get_u64("candidates", 0) == 1 { candidate_replays(args, &tokio) } else { Value::Null };
+    let candidates = if args.get_u64("candidates", 1) == 1 { candidate_replays(args, &tokio) } else { Value::Null };
     if !candidates.is_null() {
         if candidates["F11f"]["withdrawn_object_served_by_rsync"] == json!(true) {
-            out.impl_failures.push(json!({"index": Value::Null, "class": {"kind": "candidate", "id": "F11f"}, "what": "rsync/tmp-<serial> left by a failed or interrupted write is reused when the serial recurs after a session reset: a withdrawn object is served by rsync", "replay": candidates["F11f"].clone()}));
+            out.impl_failures.push(json!({"index": Value::Null, "class": {"kind": "regression", "id": "F11f"}, "what": "rsync/tmp-<serial> left by a failed or interrupted write is reused when the serial recurs after a session reset: a withdrawn object is served by rsync (fixed by e2447e97)", "replay": candidates["F11f"].clone()}));
         }
         if candidates["F11e"]["objects_in_snapshot"] != candidates["F11e"]["files_in_rsync"] {
             out.impl_failures.push(json!({"index": Value::Null, "class": {"kind": "candidate", "id": "F11e"}, "what": "two URIs that differ only in the case of the module name are distinct objects in the RRDP snapshot and one file in the rsync tree", "replay": candidates["F11e"].clone()}));
